@@ -56,7 +56,7 @@ impl GdsSwarm {
             utf8: t.chance(1, 3),
             nul: t.chance(1, 10),
             empty_strings: t.chance(1, 2),
-            long_strings: t.chance(1, 50),
+            long_strings: t.chance(1, if profile == StrProfile::Markup { 12 } else { 50 }),
             oversize: t.chance(1, 100),
             full_coords: t.chance(1, 2),
             hard_reals: t.chance(2, 3),
@@ -78,6 +78,19 @@ pub fn gen_string(t: &mut Tape, sw: &GdsSwarm) -> String {
         StrProfile::Markup => {
             if sw.empty_strings && t.chance(1, 12) {
                 return String::new();
+            }
+            if sw.long_strings && t.chance(1, 3) {
+                // kilobytes of multi-byte text, so that 4 KiB / 8 KiB buffer boundaries fall inside characters
+                let n = t.range(800, 3000);
+                let mut s = String::new();
+                let pad = t.draw(4);
+                for _ in 0..pad {
+                    s.push('p');
+                }
+                for i in 0..n {
+                    s.push(['é', '日', '😀', 'ß', '本', '€'][((i + pad) % 6) as usize]);
+                }
+                return s;
             }
             let n = t.range(1, 5);
             let mut s = String::new();
